@@ -36,10 +36,10 @@ PLAIN = ['a', 'b2', '_x', 'x_1', 'if_', 'True_', 'not_in', 'in1', 'orx', 'andy',
          'Ünï', 'имя', '变量', 'é', 'None_', 'defx', 'e1', 'len', 'map', 'f']
 PERCENT = ['%my var%', '%a.b%', '%x+y%', '%if%', '%"q"%', "%it's%", '% %', '%1%', '%a b.c-d%', '%#no comment%', '%for x%', '%%']
 KEYWORDS = ['and', 'or', 'in', 'not', 'if', 'else', 'True', 'False', 'None', 'del', 'for', 'while', 'break', 'continue', 'def', 'raise', 'elif']
-STRINGS = ['"abc"', "'x y'", '"a + b"', 'r"raw\\d"', "r'%v%'", '"%pct%"', '"it\'s"', '"#nocomment"', '""', '"if x"']
+STRINGS = ['"""x"""', '"abc"', "'x y'", '"a + b"', 'r"raw\\d"', "r'%v%'", '"%pct%"', '"it\'s"', '"#nocomment"', '""', '"if x"']
 NUMBERS = ['1', '42', '3.14', '007', '10.0']
 PUNCT = ['+', '-', '*', '/', '**', '==', '!=', '<', '<=', '>', '>=', '=', '+=', '=>', '(', ')', '[', ']', '{', '}', ',', '.', '|', ':', ';']
-ILLEGAL = ['$', '?', '~', '`', '@', '^', '&', '\\', '!', '"unterminated', "'open", '\x00', '☃']
+ILLEGAL = ['$', '?', '~', '`', '@', '^', '&', '\\', '!', '"unterminated', "'open", '\x00', '☃', '"""abc', "'''x", '""" a b']
 
 
 def _soup(r, probes):
